@@ -25,7 +25,7 @@ ASSUMPTIONS = [
     "results are compared structurally: strings, booleans, indices, node lists as pre-order positions, error lists as (code, message, "
     "node position)",
 ]
-REQUIRED = ["doubled_sibling_trees", "trees_with_a_node_listed_by_two_parents", "trees_with_unregistered_nodes", "trees_whose_ids_resolve_to_another_import", "trees_deeper_than_recursion_limit", "imported_trees_with_default_namespace", "snapshots_compared", "second_pass_results_compared", "trees_needing_xml_escaping", "op:export.to_xml", "op:metapype_io.to_xml",
+REQUIRED = ["enumerated_content_in_hand_typed_spellings", "doubled_sibling_trees", "trees_with_a_node_listed_by_two_parents", "trees_with_unregistered_nodes", "trees_whose_ids_resolve_to_another_import", "trees_deeper_than_recursion_limit", "imported_trees_with_default_namespace", "snapshots_compared", "second_pass_results_compared", "trees_needing_xml_escaping", "op:export.to_xml", "op:metapype_io.to_xml",
             "op:validate.tree", "op:evaluate.tree", "op:Node.is_equal", "op:find_all_descendants", "op:metapype_io.to_json"]
 EXHAUSTIVE = {"quick": False, "thorough": False}
 
@@ -384,6 +384,25 @@ def run(ctx, params):
             ctx.count("doubled_sibling_trees")
             ctx.case(judge, ctx, t, f"vocabulary sweep, siblings doubled: <{e}>")
             emlkit.discard(t)
+    # enumerated content in the spellings people type by hand (plurals, British endings, capitals, blanks around it): reported or not,
+    # it stays what was typed
+    for e in mrule.node_names():
+        enum = emlkit.rules_table().get(mrule.node_mappings[e], [None, None, {}])[2].get("content_enum")
+        if not enum:
+            continue
+        for v in [x for x in enum if x]:
+            variants = [v + "s", v + "es", v.capitalize(), v.upper(), " " + v, v + " "]
+            if v.endswith("er"):
+                variants += [v[:-2] + "re", v[:-2] + "res"]
+            for w in variants:
+                if w in enum:
+                    continue
+                holder = Node("verifHolder")
+                x = Node(e, content=w)
+                holder.add_child(x)
+                ctx.count("enumerated_content_in_hand_typed_spellings")
+                ctx.case(judge, ctx, holder, f"<{e}> with a hand-typed spelling of an enumerated value")
+                emlkit.discard(holder)
     # responsible parties identified through every spelling of the ORCID directory in circulation (read-only for evaluation too)
     for spelling in ("https://orcid.org", "https://orcid.org/", "http://orcid.org", "http://orcid.org/", "https://www.orcid.org", "https://www.orcid.org/",
                      "ORCID", " https://orcid.org ", "https://ror.org", ""):
